@@ -161,8 +161,8 @@ class SgzCropper(SgzReader):
                                                                                                   zslices_index_range)
 
         z_units = (pad(zslices_index_range[1], self.blockshape[2]) - zslices_index_range[0]) // 4
-        xl_units = (xline_index_range[1] - xline_index_range[0]) // 4
-        il_units = (iline_index_range[1] - iline_index_range[0]) // 4
+        xl_units = (pad(xline_index_range[1], self.blockshape[1]) - xline_index_range[0]) // 4
+        il_units = (pad(iline_index_range[1], self.blockshape[0]) - iline_index_range[0]) // 4
 
         header = self.regenerate_header(iline_index_range, xline_index_range, zslices_index_range)
         compressed_bytes = self.loader.read_chunk_range(iline_index_range[0],
